@@ -123,6 +123,9 @@ func (t tupleVariation) calculateScalar(coords []VarCoord, sharedTuples [][]VarC
 
 		// use the cache to restrict the range
 		if v := sharedTupleActiveIdx[index]; v != -1 {
+			if v >= len(coords) { // the only active axis has no coordinate: it is at its default, the tuple does not apply
+				return 0.
+			}
 			startIdx = v
 			endIdx = startIdx + 1
 		}
